@@ -543,6 +543,10 @@ def phantom(chk, prog, cfg):
             derived = any(e.get("kind") == "Derive" for e in (prog.fns.get(fn.get("root"), {}).get("expn") or []))
         okp = p in ("scale_info::ty::TypeDefTuple::new", "scale_info::ty::TypeDefTuple::new_portable",
                     "<scale_info::ty::TypeDefTuple as scale_info::registry::IntoPortable>::into_portable") or derived
+        if not okp and p == "scale_info::ty::TypeDefTuple::unit":
+            # the empty tuple built directly: nothing to filter
+            tt_ = b.rvalue_term(rv)
+            okp = is_call(agg_field(tt_, "fields"), "alloc::vec::Vec::new", nargs=0)
         chk.expect(okp, "R17.4", "TypeDefTuple-built-in:" + p.split("::{closure")[0], b.where(bb), "TypeDefTuple{..} constructed in %s" % p, cfg)
     b = cr.anchor(chk, prog, "ty::TypeDefTuple::new")
     if b is not None:
@@ -555,7 +559,7 @@ def phantom(chk, prog, cfg):
                 it, lam = sf
                 cond, keep_when = lam.result
                 ok = unref(it) in (cr.arg(b, 1), ("var", 1, b.names.get(1))) and keep_when is False \
-                    and is_call(cond, "MetaType::is_phantom", nargs=1) and unref(cond[2][0]) == lam.item
+                    and is_call(cond, "MetaType::is_phantom", nargs=1) and unref(cond[2][0]) in (lam.item, unref(lam.item))
         chk.expect(ok, "R17.4", "TypeDefTuple::new:filters-phantoms", b.where(), path_str(rt)[:200], cfg)
     for (b, bb, rv) in who.aggregates(prog, B + "FieldsBuilder"):
         p = mir.strip_generics(b.path)
